@@ -2115,9 +2115,12 @@ def regex_shape(pattern, flags=0, searched_only=False):
                         if jt[1] == 0:
                             optional -= 1
                         continue
+                    if jt[0] in (C.ASSERT, C.ASSERT_NOT, C.AT):
+                        continue        # zero width
                     r2 = rep_of(jt)
                     cs2 = r2[3] if r2 is not None else rx.all_chars([jt])
-                    if depth > 0 and (" " in cs2 or "\t" in cs2):
+                    if depth > 0 and any(ch in cs2 for ch in
+                                         " \t\n\x0b\x0c\xa0\u3000"):
                         if first_time:
                             bad.append(("lazy-ws", "a lazy white-space "
                                         "repeat stands in front of a "
